@@ -33,6 +33,25 @@ def gen_structured(rng: random.Random):
         wrong = {"c": {"x": (-1 if p > 0 else 1) * k(), "b": s() * k()}, "k": float(rng.randint(-3, 6))}
         ctx = [good] if rng.random() < 0.6 else ([wrong] if rng.random() < 0.5 else [wrong, good])
         return [t], ctx + G.rtl(rng, KEEP, rng.randint(0, 1)), ["x"]
+    if m < 0.26:   # tactic 4, longer chain x -> y -> z, possibly with a dead end (no row bounds the last variable alone)
+        p = s() * k()
+        t = {"c": {"x": p, "a": s() * k()}, "k": float(rng.randint(-3, 6))}
+        sx = 1 if p > 0 else -1
+        q = s() * k()
+        r1 = {"c": {"x": sx * k(), "y": q}, "k": float(rng.randint(-3, 6))}
+        sy = 1 if (-q / sx) > 0 else -1          # sign the y-coefficient of the next row needs (upper-bound branch)
+        if sx < 0:
+            sy = -sy                             # lower-bound branch: the isolated expression is negated first
+        q2 = s() * k()
+        r2 = {"c": {"y": sy * k(), "z": q2}, "k": float(rng.randint(-3, 6))}
+        ctx = [r1, r2]
+        if rng.random() < 0.5:
+            sz = 1 if (-q2 / sy) > 0 else -1
+            ctx.append({"c": {"z": (sz if rng.random() < 0.7 else -sz) * k(), "c": s() * k()}, "k": float(rng.randint(-3, 6))})
+        if rng.random() < 0.3:
+            ctx[0]["c"]["b"] = s() * k()
+        rng.shuffle(ctx)
+        return [t], ctx, ["x", "y", "z"]
     if m < 0.36:   # tactic 4, chain through y
         p = s() * k()
         t = {"c": {"x": p, "a": s() * k()}, "k": float(rng.randint(-3, 6))}
